@@ -15,7 +15,7 @@ from simkit.compare import digest
 from simkit.sched import POLICIES, Sim, SimDeadlock, seed_uuid
 
 PROPERTY = "C20"
-BUDGET = {"quick": {"runs": 320, "timeout": 200.0}, "thorough": {"runs": 8000, "timeout": 400.0}}
+BUDGET = {"quick": {"runs": 240, "timeout": 200.0}, "thorough": {"runs": 8000, "timeout": 400.0}}
 LEVEL = "exploration"
 
 
